@@ -20,3 +20,9 @@ t = TM(states=[{'name': 'A', 'tags': common}, {'name': 'B', 'tags': common}], in
 t.get_state('A').tags.append('only_a')
 assert not t.get_state('B').is_only_a
 print('ok')
+# a single tag given as a plain string stays one tag (follow-up of D51)
+s = TM(states=[{'name': 'A', 'tags': 'busy'}, 'B'], initial='A')
+assert s.get_state('A').is_busy and s.get_state('A').tags == ['busy'], s.get_state('A').tags
+e = EM(states=[{'name': 'A', 'tags': 'busy', 'accepted': True}, 'B'], initial='B')
+assert e.get_state('A').is_busy and e.get_state('A').is_accepted
+print('ok')
